@@ -44,6 +44,18 @@ static int check_aggr(KSI_AggregationHashChain *c, int alg, const unsigned char 
 	int exp_level = -1, rr, res, lvl = -12345, nontrivial = 0;
 	KSI_DataHash *root = NULL;
 	rr = ref_chain_aggregate(alg, in, in_len, start, links, n, exp, &exp_len, &exp_level);
+	{
+		/* every other time the chain object is first asked for the root alone (the level output is optional): what that call leaves
+		 * in the object's cache must not change the answer of the full call that follows */
+		if (((unsigned)start ^ (unsigned)n ^ (in_len > 1 ? in[1] : 0u)) & 1u) {   /* decided by the case's own data: the same on replay */
+			KSI_DataHash *r0 = NULL;
+			int r = KSI_AggregationHashChain_aggregate(c, start, NULL, &r0);
+			vf_count("impl_calls", 1);
+			if (rr == 0 && backend_supports(alg) && (r != KSI_OK || !ku_hash_eq(r0, exp, exp_len))) vf_fail("aggr-root-mismatch", "start=%d n=%zu alg=%d, root-only call: expected root %s, got res 0x%x root %s", start, n, alg, vf_hex(exp, exp_len), r, ku_hash_hex(r0));
+			if (r != KSI_OK && r0 != NULL) vf_fail("refused-with-root", "KSI_AggregationHashChain_aggregate (root only) start=%d returned 0x%x and still handed out a root", start, r);
+			KSI_DataHash_free(r0);
+		}
+	}
 	res = KSI_AggregationHashChain_aggregate(c, start, &lvl, &root);
 	vf_count("impl_calls", 1);
 	if (res != KSI_OK && root != NULL) vf_fail("refused-with-root", "KSI_AggregationHashChain_aggregate start=%d returned 0x%x and still handed out a root", start, res);
